@@ -1102,6 +1102,8 @@ struct Rs<'a> {
     gm: &'a [Str], // glyph names by glyph id
     delp: bool,     // `sub X by NULL;` joins (promotes) a running single-substitution lookup (false on the unrepaired tree)
     eskip: bool,    // a contextual rule naming an empty lookup block applies nothing there (unrepaired: the compiler panics)
+    refc: bool,     // `lookup NAME;` closes the running lookup (specification; false in /repo)
+    mixs: bool,     // a named block with multiple-substitution and ligature rules is rejected (specification; false in /repo)
 }
 
 type Env = Vec<(u32, Vec<Glyph>)>;
@@ -1944,11 +1946,15 @@ fn block_ok(kind: Option<u32>, flag_after_rule: bool, l: &[LStmt]) -> bool {
 }
 
 /// resolve_lookup_block = start_lookup_block; statements; end_lookup_block
+fn block_has(k: u32, l: &[LStmt]) -> bool {
+    l.iter().any(|s| matches!(s, LRule(r) if rule_kind(r) == k))
+}
+
 fn elab_block(rs: Rs, st: &EState, name: u32, body: &[LStmt]) -> Option<EState> {
     match assoc(name, &st.named) {
         Some(_) => None,
         None => {
-            if !block_ok(None, false, body) {
+            if !block_ok(None, false, body) || (rs.mixs && block_has(2, body) && block_has(4, body)) {
                 return None;
             }
             let (st1, fin) = finish_current(st);
@@ -2004,7 +2010,14 @@ fn elab_fstmt(rs: Rs, st: &EState, s: &FStmt) -> Option<EState> {
             Some(set_script_language(st, (s, *t), *excl))
         }
         FLookupRef(n) => match assoc(*n, &st.named) {
-            Some(i) => Some(add_to_feature(st, Some(*i))),
+            Some(i) => {
+                if rs.refc {
+                    let (st1, fin) = finish_current(st);
+                    Some(add_to_feature(&add_to_feature(&st1, fin), Some(*i)))
+                } else {
+                    Some(add_to_feature(st, Some(*i)))
+                }
+            }
             None => None,
         },
         FLookupBlock(n, body) => elab_block(rs, st, *n, body),
@@ -2114,8 +2127,8 @@ fn elab_tops(rs: Rs, st: &EState, l: &[Top]) -> Option<EState> {
     Some(st)
 }
 
-fn elab_gen(incl: bool, gm: &[Str], delp: bool, eskip: bool, p: &Prog) -> Option<EProg> {
-    match elab_tops(Rs { incl, gm, delp, eskip }, &es0(), p) {
+fn elab_gen(incl: bool, gm: &[Str], delp: bool, eskip: bool, refc: bool, mixs: bool, p: &Prog) -> Option<EProg> {
+    match elab_tops(Rs { incl, gm, delp, eskip, refc, mixs }, &es0(), p) {
         Some(st) => Some(EProg { gsub: st.gsub, gpos: st.gpos, feats: st.feats, gdef: st.gdefs }),
         None => None,
     }
@@ -2123,7 +2136,7 @@ fn elab_gen(incl: bool, gm: &[Str], delp: bool, eskip: bool, p: &Prog) -> Option
 
 /// the walk under the specification's reading: ranges include their end, a named block is one lookup
 fn elab_spec(gm: &[Str], p: &Prog) -> Option<EProg> {
-    elab_gen(true, gm, true, true, p)
+    elab_gen(true, gm, true, true, true, true, p)
 }
 
 /// lookup indices of a feature entry, per table, increasing and without repeats (dedupe_lookups)
@@ -3897,7 +3910,7 @@ impl<'r> Gen<'r> {
     }
 
     fn rs(&self) -> Rs<'_> {
-        Rs { incl: true, gm: &self.gm, delp: true, eskip: true }
+        Rs { incl: true, gm: &self.gm, delp: true, eskip: true, refc: true, mixs: true }
     }
     fn resolve(&self, items: &[CItem]) -> Vec<Glyph> {
         resolve_items(self.rs(), &self.env, items).unwrap_or_default()
@@ -5199,6 +5212,28 @@ fn corpus() -> Vec<(Prog, String)> {
             ],
             "corpus:flags-ligature-kerning".into(),
         ),
+        // `lookup NAME;` between rules: the rules after it are a new lookup, applied after the ones before
+        (
+            vec![TLookup(1, vec![LRule(RSingle(g(G_X), g(G_Y)))]), TFeature(t, vec![r(RSingle(g(G_A), g(G_C))), FLookupRef(1), r(RSingle(g(G_C), g(G_D)))])],
+            "corpus:lookup-reference-between-rules".into(),
+        ),
+        // single + multiple + ligature rules in one named block
+        (
+            vec![
+                TLookup(1, vec![LRule(RSingle(g(G_A), g(G_B))), LRule(RMulti(g(G_C), vec![g(G_D), g(G_E)])), LRule(RLiga(vec![g(G_F), g(G_I)], G_FI))]),
+                TFeature(t, vec![FLookupRef(1)]),
+            ],
+            "corpus:mixed-rule-types-in-named-block".into(),
+        ),
+        // a class of one glyph in a later input position of a context-free contextual rule
+        (
+            vec![
+                TLookup(1, vec![LRule(RSingle(g(G_A), g(G_X)))]),
+                TLookup(2, vec![LRule(RSingle(g(G_B), g(G_Y)))]),
+                TFeature(t, vec![r(RChain(vec![], vec![(g(G_A), vec![1]), (cls(&[G_B]), vec![2])], vec![], InlNone))]),
+            ],
+            "crasher:context-format1-singleton-class".into(),
+        ),
         // a class redefined between its uses: a reference means the latest definition before it
         (
             vec![
@@ -5533,6 +5568,8 @@ struct Opts {
     incl: bool,
     delp: bool,
     eskip: bool,
+    refc: bool,
+    mixs: bool,
     isng: bool,
     imul: bool,
     ilig: bool,
@@ -5679,10 +5716,19 @@ fn process_program(id: usize, kind: &str, prog: &Prog, rng: &mut Rng, st: &mut S
         }
         Outcome::Rejected(msg) => {
             *st.outcomes.entry("rejected".into()).or_insert(0) += 1;
-            let coq = format!("case_rejected {} {} {} {} {}", coq_bool(o.incl), coq_bool(o.delp), coq_bool(o.eskip), cq_gm(names), cq_prog(prog));
+            let coq = format!(
+                "case_rejected {} {} {} {} {} {} {}",
+                coq_bool(o.incl),
+                coq_bool(o.delp),
+                coq_bool(o.eskip),
+                coq_bool(o.refc),
+                coq_bool(o.mixs),
+                cq_gm(names),
+                cq_prog(prog)
+            );
             st.max_term = st.max_term.max(coq.len());
             if showing {
-                println!("outcome: REJECTED\n{}\ntwin elab(incl) is {}\nCOQ: {}", msg, if elab_gen(o.incl, &gm, o.delp, o.eskip, prog).is_some() { "Some" } else { "None" }, coq);
+                println!("outcome: REJECTED\n{}\ntwin elab(incl) is {}\nCOQ: {}", msg, if elab_gen(o.incl, &gm, o.delp, o.eskip, o.refc, o.mixs, prog).is_some() { "Some" } else { "None" }, coq);
             }
             if !quiet {
                 emit_case(id, kind, coq, None, nrules > 0, fnv(&fea), json!({"fea": fea, "outcome": "rejected", "pred_ok": true, "message": msg}));
@@ -5706,11 +5752,23 @@ fn process_program(id: usize, kind: &str, prog: &Prog, rng: &mut Rng, st: &mut S
                 }
             };
             let espec = elab_spec(&gm, prog);
-            let eimpl = elab_gen(o.incl, &gm, o.delp, o.eskip, prog);
+            let eimpl = elab_gen(o.incl, &gm, o.delp, o.eskip, o.refc, o.mixs, prog);
             if espec.is_none() || eimpl.is_none() {
                 st.elab_none_but_accepted += 1;
             }
-            if espec.is_none() && !o.incl && eimpl.is_some() {
+            if espec.is_none() && !o.mixs && elab_gen(true, &gm, true, true, true, false, prog).is_some() {
+                // the specification's reading rejects the file: a named block mixes multiple-substitution and
+                // ligature rules; fea-rs splits it in two lookups and the name denotes the last one
+                let key = "mixed-rule-types-in-named-block-split-lookup";
+                *st.violations.entry(key.into()).or_insert(0) += 1;
+                if !quiet {
+                    emit_violation(
+                        key,
+                        "fea-rs compiles a named lookup block that holds multiple-substitution and ligature rules (any other mix of rule types is rejected): the block becomes two lookups and the name refers to the last one only".to_string(),
+                        json!({"fea": fea, "kind": kind}),
+                    );
+                }
+            } else if espec.is_none() && !o.incl && eimpl.is_some() {
                 // fea-rs accepted a file that the inclusive reading of numeric ranges rejects (class lengths)
                 let key = "glyph-range-numeric-excludes-end";
                 *st.violations.entry(key.into()).or_insert(0) += 1;
@@ -5828,19 +5886,22 @@ fn process_program(id: usize, kind: &str, prog: &Prog, rng: &mut Rng, st: &mut S
                 // The last two are decided on a MINIMISED program (statements deleted one at a time as long
                 // as fea-rs still accepts the file and the predicate still fails on the same selections and
                 // strings), so that the key names the rules that matter and not whatever else is in the file.
-                let holds_under = |incl: bool, delp: bool| match elab_gen(incl, &gm, delp, true, prog) {
+                let holds_under = |incl: bool, delp: bool, refc: bool| match elab_gen(incl, &gm, delp, true, refc, true, prog) {
                     Some(e0) => sels.iter().all(|sel| strs.iter().all(|s| pitems_eqb(&apply_ot(&real, sel, s), &interp_fea(&e0, sel, s)))),
                     None => false,
                 };
                 // an explanation by an unrepaired reading is only tried when this build has that reading
-                let holds_with_excl = !o.incl && holds_under(false, true);
-                let holds_with_split = !o.delp && !holds_with_excl && holds_under(true, false);
+                let holds_with_excl = !o.incl && holds_under(false, true, true);
+                let holds_with_split = !o.delp && !holds_with_excl && holds_under(true, false, true);
+                let holds_with_ref = !o.refc && !holds_with_excl && !holds_with_split && holds_under(true, true, false);
                 let mut min_fea: Option<String> = None;
                 let mut witness = (*si, s.clone(), out_real.clone(), out_src.clone());
                 let key = if holds_with_excl {
                     "glyph-range-numeric-excludes-end".to_string()
                 } else if holds_with_split {
                     "by-null-rule-splits-lookup".to_string()
+                } else if holds_with_ref {
+                    "lookup-reference-does-not-close-running-lookup".to_string()
                 } else {
                     let (pmin, w) = minimise(prog, &sels, &strs, &gm, names, &mut st.minimiser_compiles);
                     if let Some(w) = w {
@@ -5857,14 +5918,16 @@ fn process_program(id: usize, kind: &str, prog: &Prog, rng: &mut Rng, st: &mut S
                         Outcome::Font(bytes) => decode_font(&bytes, names.len() as u32).ok(),
                         _ => None,
                     };
-                    let min_holds_under = |incl: bool, delp: bool| match (elab_gen(incl, &gm, delp, true, &pmin), &rmin) {
+                    let min_holds_under = |incl: bool, delp: bool, refc: bool| match (elab_gen(incl, &gm, delp, true, refc, true, &pmin), &rmin) {
                         (Some(e0), Some(rmin)) => sels.iter().all(|sel| strs.iter().all(|s| pitems_eqb(&apply_ot(rmin, sel, s), &interp_fea(&e0, sel, s)))),
                         _ => false,
                     };
-                    if !o.incl && min_holds_under(false, true) {
+                    if !o.incl && min_holds_under(false, true, true) {
                         "glyph-range-numeric-excludes-end".to_string()
-                    } else if !o.delp && min_holds_under(true, false) {
+                    } else if !o.delp && min_holds_under(true, false, true) {
                         "by-null-rule-splits-lookup".to_string()
+                    } else if !o.refc && min_holds_under(true, true, false) {
+                        "lookup-reference-does-not-close-running-lookup".to_string()
                     } else if let Some(k) = lks.iter().find_map(chain_defect_key) {
                         k.to_string()
                     } else if let Some(sl) = lks.iter().find(|sl| !wf_lookup(sl)) {
@@ -5897,6 +5960,10 @@ fn process_program(id: usize, kind: &str, prog: &Prog, rng: &mut Rng, st: &mut S
                     );
                 }
             }
+            if espec.is_none() {
+                // the specification's reading rejects a file fea-rs compiled: the property fails for it
+                pred_ok = false;
+            }
             // ---- samples ----
             let mut samples: Vec<(usize, Vec<Glyph>, Vec<PItem>, Vec<PItem>)> = vec![];
             if let Some(es) = &espec {
@@ -5925,10 +5992,12 @@ fn process_program(id: usize, kind: &str, prog: &Prog, rng: &mut Rng, st: &mut S
                 st.nontrivial += 1;
             }
             let coq = format!(
-                "case_ok {} {} {} {} {} {} {} {} {} {} {} {} {} {} {}",
+                "case_ok {} {} {} {} {} {} {} {} {} {} {} {} {} {} {} {} {}",
                 coq_bool(o.incl),
                 coq_bool(o.delp),
                 coq_bool(o.eskip),
+                coq_bool(o.refc),
+                coq_bool(o.mixs),
                 coq_bool(o.isng),
                 coq_bool(o.imul),
                 coq_bool(o.ilig),
@@ -6194,6 +6263,27 @@ fn probe_inline() -> (bool, bool, bool, bool) {
     (eskip, isng, imul, ilig)
 }
 
+/// (refc, mixs): does `lookup NAME;` close the running lookup, and is a named block with multiple-substitution
+/// and ligature rules rejected, in this build of fea-rs?
+fn probe_refc_mixs() -> (bool, bool) {
+    let refc = match compile_real("lookup L1 { sub x by y; } L1;\nfeature test { sub a by c; lookup L1; sub c by d; } test;\n", GLYPHS) {
+        Outcome::Font(bytes) => match decode_font(&bytes, GLYPHS.len() as u32) {
+            Ok(f) => {
+                let sel = Selection { script: DFLT, lang: dflt, feats: vec![tag("test")], alt: 0 };
+                let out = apply_ot(&f, &sel, &[G_A]);
+                out.len() == 1 && out[0].0 == G_D
+            }
+            Err(_) => true,
+        },
+        _ => true,
+    };
+    let mixs = !matches!(
+        compile_real("lookup L1 { sub a by b; sub c by d e; sub f i by f_i; } L1;\nfeature test { lookup L1; } test;\n", GLYPHS),
+        Outcome::Font(_)
+    );
+    (refc, mixs)
+}
+
 fn arg_str(args: &[String], name: &str) -> Option<String> {
     args.iter().position(|a| a == name).and_then(|i| args.get(i + 1)).cloned()
 }
@@ -6248,7 +6338,8 @@ fn main() {
     let incl = probe_incl();
     let delp = probe_delp();
     let (eskip, isng, imul, ilig) = probe_inline();
-    let o = Opts { show, incl, delp, eskip, isng, imul, ilig };
+    let (refc, mixs) = probe_refc_mixs();
+    let o = Opts { show, incl, delp, eskip, refc, mixs, isng, imul, ilig };
     let mut st = Stats {
         streams: BTreeMap::new(),
         outcomes: BTreeMap::new(),
@@ -6314,6 +6405,8 @@ fn main() {
             "incl_probe": incl,
             "delp_probe": delp,
             "eskip_probe": eskip,
+            "refc_probe": refc,
+            "mixs_probe": mixs,
             "isng_probe": isng,
             "imul_probe": imul,
             "ilig_probe": ilig,
